@@ -1318,7 +1318,7 @@ class Keyvalues:
                 for child in self._value:
                     child._serialise(file, indent, open_brace, close_brace, '')
             else:
-                file.write(f'{cur_indent}"{self._real_name}"\n')
+                file.write(f'{cur_indent}"{escape_text(self._real_name)}"\n')
                 file.write(f'{cur_indent}{open_brace}')
                 child_indent = f"{cur_indent}{indent}"
                 for child in self._value:
@@ -1347,7 +1347,7 @@ class Keyvalues:
                     yield from kv.export()
             else:
                 assert self._real_name is not None, repr(self)
-                yield f'"{self._real_name}"\n'
+                yield f'"{escape_text(self._real_name)}"\n'
                 yield '\t{\n'
                 yield from (
                     '\t' + line
